@@ -61,7 +61,7 @@ def build_cases(tier, seed):
             if a + b == 0 or a == 0:
                 continue
             for c in COH:
-                for za in (0, 1):
+                for za in (0, 1, 2):  # 2: slate_to_candidates lists the blocs in the opposite order to bloc_voter_prop
                     cs.append(("sbt", (a, b, c, za)))
     from . import gens as _g
     for k in range(len(_g.two_bloc_params(tier))):
@@ -257,9 +257,11 @@ def run_sbt(i, data, cnt, out):
 
     a, b, c, za = data
     cnt["executions"] += 1
-    xs = [f"x{k}" for k in range(a)] + (["xz"] if za else [])
+    xs = [f"x{k}" for k in range(a)] + (["xz"] if za == 1 else [])
     ys = [f"y{k}" for k in range(b)] or []
     s2c = {"X": xs, "Y": ys if ys else ["yz"]}
+    if za == 2:
+        s2c = {"Y": s2c["Y"], "X": s2c["X"]}
     pix = {x: (0 if x == "xz" else 1 + k) for k, x in enumerate(xs)}
     piy = {y: 1 + k for k, y in enumerate(ys)} if ys else {"yz": 0}
     try:
